@@ -89,6 +89,21 @@ class Unit:
         self.items.append(dict(name='const ' + name, kind='const', file=rel, line=0))
         return self
 
+    def consts_all(self, rel, types=('i32', 'i64', 'u32', 'u64', 'u8', 'i8', 'u16', 'usize')):
+        """every module-level integer const of the file whose initialiser is a literal / simple arithmetic over other consts
+        (robust against consts being added or removed by an edit)"""
+        s = src(rel).s
+        n = 0
+        for m in re.finditer(r'^(?:pub(?:\([a-z]+\))? )?const ([A-Z][A-Z0-9_]*): (\w+) = ([^;{}\[\]]+);', s, flags=re.M):
+            if m.group(2) not in types:
+                continue
+            if not re.fullmatch(r'[\w\s+\-*()]+', m.group(3)):
+                continue
+            self.chunks.append(clean_const(m.group(0)))
+            self.items.append(dict(name='const ' + m.group(1), kind='const', file=rel, line=s.count('\n', 0, m.start()) + 1))
+            n += 1
+        return n
+
     def struct(self, rel, name, derive='Clone, Copy', expect_fields=None):
         t = clean_struct(src(rel).struct(name), derive)
         if expect_fields is not None:
